@@ -434,7 +434,8 @@ type seqGen struct {
 	lines    []string
 }
 
-var seqKeyTable = []string{"k", "ka", "kb", "ké", "日本", "z", strings.Repeat("L", 255), "a/b", "k ", "\U0001F600"}
+var seqKeyTable = []string{"k", "ka", "kb", strings.Repeat("M", 120), "ké", "日本", strings.Repeat("L", 255), "z", "a/b",
+	strings.Repeat("N", 89), "k ", "\U0001F600", strings.Repeat("O", 200)}
 var seqLevels = []string{"RU", "RC", "RR", "SER"}
 
 func (g *seqGen) emit(format string, a ...any) { g.lines = append(g.lines, fmt.Sprintf(format, a...)) }
